@@ -107,9 +107,7 @@ func (s *Service) ScheduleJob(ctx context.Context,
 		select {
 		case <-ctx.Done():
 			s.log.Trace().Str("job", name).Time("scheduled", runtime).Msg("Parent context done; job not running")
-			s.jobsMutex.Lock()
-			delete(s.jobs, name)
-			s.jobsMutex.Unlock()
+			s.removeJob(name, job)
 			finaliseJob(job)
 			monitorJobCancelled(class)
 		case <-job.cancelCh:
@@ -142,9 +140,7 @@ func (s *Service) ScheduleJob(ctx context.Context,
 				job.active.Store(false)
 				break
 			}
-			s.jobsMutex.Lock()
-			delete(s.jobs, name)
-			s.jobsMutex.Unlock()
+			s.removeJob(name, job)
 			s.log.Trace().Str("job", name).Time("scheduled", runtime).Msg("Timer triggered; job running")
 			job.active.Store(true)
 			monitorJobStartedOnTimer(class)
@@ -199,18 +195,14 @@ func (s *Service) SchedulePeriodicJob(ctx context.Context,
 			runtime, err := runtimeFunc(ctx)
 			if errors.Is(err, scheduler.ErrNoMoreInstances) {
 				s.log.Trace().Str("job", name).Msg("No more instances; period job stopping")
-				s.jobsMutex.Lock()
-				delete(s.jobs, name)
-				s.jobsMutex.Unlock()
+				s.removeJob(name, job)
 				finaliseJob(job)
 				monitorJobCancelled(class)
 				return
 			}
 			if err != nil {
 				s.log.Error().Str("job", name).Err(err).Msg("Failed to obtain runtime; periodic job stopping")
-				s.jobsMutex.Lock()
-				delete(s.jobs, name)
-				s.jobsMutex.Unlock()
+				s.removeJob(name, job)
 				finaliseJob(job)
 				monitorJobCancelled(class)
 				return
@@ -219,9 +211,7 @@ func (s *Service) SchedulePeriodicJob(ctx context.Context,
 			select {
 			case <-ctx.Done():
 				s.log.Trace().Str("job", name).Time("scheduled", runtime).Msg("Parent context done; job not running")
-				s.jobsMutex.Lock()
-				delete(s.jobs, name)
-				s.jobsMutex.Unlock()
+				s.removeJob(name, job)
 				finaliseJob(job)
 				monitorJobCancelled(class)
 				return
@@ -361,6 +351,17 @@ func (s *Service) CancelJobs(ctx context.Context, prefix string) {
 		// It is possible that the job has been removed whist we were iterating, so use the non-erroring version of cancel.
 		s.CancelJobIfExists(ctx, name)
 	}
+}
+
+// removeJob removes a job from the jobs list, provided that the name still refers to that job.
+// RunJob and CancelJob release the name of a job when they claim it, so by the time the job's own
+// goroutine comes to remove the name it may have been taken by a newer job, which must stay listed.
+func (s *Service) removeJob(name string, job *job) {
+	s.jobsMutex.Lock()
+	if s.jobs[name] == job {
+		delete(s.jobs, name)
+	}
+	s.jobsMutex.Unlock()
 }
 
 // finaliseJob tidies up a job that is no longer in use.
